@@ -20,6 +20,7 @@ def faultEnv (kind k len : Nat) : Bool × Option (List Nat) × List WriteEvt :=
   | 14 => (true, some ((List.range (len / 2)).map (· % 256)), [])
   | 15 => (true, some ((List.range len).map (· % 256)), [])
   | 16 => (true, none, [])     -- no fault (the rendering embeds a logo by relative path; compared in the child)
+  | 17 => (true, none, [])     -- no fault: other threads write SIBLING files (same stem, other extensions) all the while
   | _ => (false, none, [])
 
 /-- `file <kind> <k> <renderer> <size> => <ok|err|trap|crash…> <absent|equal|prefix:n|differs:n> <len>` -/
@@ -29,7 +30,7 @@ def opFile (args res : List String) : Verdict :=
     let kind := kind.toNat!
     let k := k.toNat!
     let len := len.toNat!
-    let faultFree := kind == 0 || (kind ≥ 11 && kind ≤ 16) || (kind == 5 && k ≥ len)
+    let faultFree := kind == 0 || (kind ≥ 11 && kind ≤ 17) || (kind == 5 && k ≥ len)
     let spec := firstFail [
       (if result == "ok" ∨ result == "err" then none else some s!"to_file-{result}"),
       (if result == "ok" ∧ state != "equal" then some s!"Ok-returned-but-file-is-{state}" else none),
